@@ -66,6 +66,7 @@ func init() {
 }
 
 func runC26(c *Ctx) {
+	c26Diversity(c)
 	aT := "(control/beacon.baseAlgo)"
 	if v := c.View(aT + ".SelectBeacons"); v != nil {
 		rule := "S1-select"
